@@ -47,6 +47,10 @@ type ConstTable struct {
 
 const staticDepth = 12
 
+// zeroValueSuffix ends the explanation of Static when the element asked for is
+// absent from a constant table, i.e. reads as the zero value.
+const zeroValueSuffix = " (zero value)"
+
 func (ev *Evaluator) with(info *types.Info) *Evaluator {
 	if info == ev.Info {
 		return ev
@@ -171,7 +175,7 @@ func (ev *Evaluator) static(v Val, depth int) (Val, string) {
 		if !ok || ic.V.Kind() != constant.Int {
 			return Val{}, "index " + types.ExprString(e.Index) + " is not a constant"
 		}
-		ct, why := ev.tableOfLit(base, nil, types.ExprString(e.X))
+		ct, why := ev.tableOfLitSparse(base, nil, types.ExprString(e.X), true)
 		if why != "" {
 			return Val{}, why
 		}
@@ -249,6 +253,13 @@ func structField(info *types.Info, lit *ast.CompositeLit, name string) (ast.Expr
 
 // tableOfLit lists the rows of an array / slice / map composite literal.
 func (ev *Evaluator) tableOfLit(v Val, tvar *types.Var, name string) (*ConstTable, string) {
+	return ev.tableOfLitSparse(v, tvar, name, false)
+}
+
+// tableOfLitSparse is tableOfLit; with sparse set, an array / slice literal
+// with keyed elements may leave gaps (only meaningful for indexing: an index
+// without row reads as the zero value).
+func (ev *Evaluator) tableOfLitSparse(v Val, tvar *types.Var, name string, sparse bool) (*ConstTable, string) {
 	lit, ok := v.E.(*ast.CompositeLit)
 	if !ok {
 		return nil, name + " is not a composite literal"
@@ -283,6 +294,9 @@ func (ev *Evaluator) tableOfLit(v Val, tvar *types.Var, name string) (*ConstTabl
 			row.Label = fmt.Sprintf("%s[%d]", name, next)
 			next++
 			ct.Rows = append(ct.Rows, row)
+		}
+		if sparse {
+			break
 		}
 		// rows must be dense and in index order, otherwise iteration visits zero rows
 		for i, r := range ct.Rows {
@@ -368,9 +382,23 @@ func (ev *Evaluator) StringOf(e ast.Expr) (string, bool) {
 type Unrolled struct {
 	Stmt  ast.Stmt
 	Table *ConstTable // nil for a counting loop without table in its header
-	Kind  string      // "array" | "map" | "count"
+	Kind  string      // "array" | "map" | "count" | "setbits" (a walk over the set bits of the word) | "producer" (a loop over what another decomposer of the word yields)
 	N     int
 	Why   string // non-empty: the loop could NOT be unrolled (reason)
+	// Blame: the reason in Why is a defect of the loop itself (its variable is
+	// altered in the body …) rather than a shape the analysis does not model.
+	Blame bool
+	// Skip: statements of the body that drive the loop (the step of a set-bit
+	// walk written inside the body) and are not part of what an iteration reports.
+	Skip map[ast.Stmt]bool
+	// Producer: the module function whose results the loop iterates (Kind
+	// "producer"), with its own decomposition.
+	Producer     *ast.FuncDecl
+	ProducerName string
+	Sub          *Decomp
+	// WordInside: the flag word (under the bindings of the function the loop
+	// belongs to) occurs inside the loop.
+	WordInside bool
 }
 
 // iteration is one set of bindings of the loop variables.
@@ -378,6 +406,13 @@ type iteration struct {
 	env   map[types.Object]Sym
 	bind  map[types.Object]Val
 	label string
+	// test, when set, is the condition under which the iteration happens at all:
+	// the loop visits the set bits of the word (or what a decomposer reported for
+	// them), so the body runs for bit b exactly when `word & b != 0`.
+	test *MaskTest
+	// cut: the producer the loop ranges over ends ("return" / "break") when this
+	// iteration's bit is set, without reporting anything for it.
+	cut string
 }
 
 func identObj(info *types.Info, e ast.Expr) types.Object {
@@ -472,7 +507,7 @@ func (ev *Evaluator) unroll(s ast.Stmt) (*Unrolled, []iteration, *ast.BlockStmt)
 		valObj := identObj(info, s.Value)
 		for _, o := range []types.Object{keyObj, valObj} {
 			if o != nil && assigned(info, s.Body, o) {
-				u.Why = "the loop variable " + o.Name() + " is modified in the body"
+				u.Why, u.Blame = "the loop variable "+o.Name()+" is modified in the body", true
 				return u, nil, s.Body
 			}
 		}
@@ -526,6 +561,11 @@ func (ev *Evaluator) unroll(s ast.Stmt) (*Unrolled, []iteration, *ast.BlockStmt)
 				}
 			}
 		}
+		// what another decomposer of the same word reports (a slice it returns, an
+		// iterator it yields to): one iteration per bit test of that function
+		if its, handled := ev.producerLoop(u, s.X, keyObj, valObj); handled {
+			return u, its, s.Body
+		}
 		ct, why := ev.Table(s.X)
 		if why != "" {
 			u.Why = "the range operand is not a constant table: " + why
@@ -553,6 +593,10 @@ func (ev *Evaluator) unroll(s ast.Stmt) (*Unrolled, []iteration, *ast.BlockStmt)
 		return u, its, s.Body
 	case *ast.ForStmt:
 		u := &Unrolled{Stmt: s}
+		// A walk over the set bits of the flag word itself.
+		if its, handled := ev.bitWalk(u, s); handled {
+			return u, its, s.Body
+		}
 		// A loop driven by one integer variable with constant start, constant
 		// bound and a constant step (i++, i += k, m <<= 1, m = m << 1 …) is
 		// simulated: counting loops and bit walks alike.
@@ -631,7 +675,7 @@ func (ev *Evaluator) unroll(s ast.Stmt) (*Unrolled, []iteration, *ast.BlockStmt)
 			return u, nil, s.Body
 		}
 		if assigned(info, s.Body, vObj) {
-			u.Why = "the loop variable is modified in the body"
+			u.Why, u.Blame = "the loop variable is modified in the body", true
 			return u, nil, s.Body
 		}
 		// width of the variable: unsigned arithmetic wraps, signed overflow is not simulated
